@@ -146,6 +146,13 @@ def gen_cases(ctx):
         perm = list(range(n))
         rng.shuffle(perm)       # declaration order is independent of the dependency order
         cases.append({"id": len(cases), "kind": "pipeline", "type": "pipe", "stages": stages, "order": perm})
+    # fan-in: many producers finishing at nearly the same moment (their stores into the runner-wide environment race), one consumer of all
+    for _ in range(60 if thorough else 25):
+        n = rng.choice([16, 24, 32])
+        stages = [{"name": "prod %d" % k, "export_as": "", "jobs": [[{"chunks": [(True, [80, 48 + k % 10, 48 + k // 10, 10])], "exit": 0}]], "deps": [],
+                   "stage_allow": False, "novar": True} for k in range(n)]
+        stages.append({"name": "fan-in", "export_as": "", "jobs": [[{"chunks": [], "exit": 0}]], "deps": list(range(n)), "stage_allow": False, "novar": True})
+        cases.append({"id": len(cases), "kind": "fan-in", "type": "pipe", "stages": stages, "order": list(range(n + 1))})
     return cases
 
 
